@@ -275,6 +275,68 @@ theorem runEv_eq_run (s : Sess) (evs : List Ev) :
 
 theorem establish_eq (l p tR tS : Nat) : Sess.establish l p tR tS = Sess.init (min l p) tR tS := rfl
 
+/-! ### OPENCONFIRM -/
+
+theorem openConfirmNotify_eq : TimerTable.openConfirmNotify = (4, 0) := rfl
+theorem openConfirmUnexpected_eq : TimerTable.openConfirmUnexpected = (5, 2) := rfl
+
+theorem firstReal_mem (ps : List Poll) (p : Poll) (h : firstReal ps = some p) : p ∈ ps ∧ p.kind.real = true := by
+  induction ps with
+  | nil => simp [firstReal] at h
+  | cons q qs ih =>
+    simp only [firstReal] at h
+    by_cases hq : q.kind.real = true
+    · simp [hq] at h; subst h; exact ⟨by simp, hq⟩
+    · simp [hq] at h; exact ⟨List.mem_cons_of_mem _ (ih h).1, (ih h).2⟩
+
+theorem firstReal_none (ps : List Poll) (h : firstReal ps = none) : ∀ q ∈ ps, q.kind.real = false := by
+  induction ps with
+  | nil => simp
+  | cons q qs ih =>
+    simp only [firstReal] at h
+    by_cases hq : q.kind.real = true
+    · simp [hq] at h
+    · simp [hq] at h
+      intro r hr
+      rcases List.mem_cons.1 hr with e | e
+      · subst e; simpa using hq
+      · exact ih h r e
+
+theorem mono_ge (prev : Nat) (ps : List Poll) (h : Mono prev ps) : ∀ q ∈ ps, prev ≤ q.t := by
+  induction ps generalizing prev with
+  | nil => simp
+  | cons p ps ih =>
+    intro q hq
+    rcases List.mem_cons.1 hq with e | e
+    · subst e; exact h.1
+    · exact Nat.le_trans h.1 (ih p.t h.2 q e)
+
+/-- in a time-ordered sequence the first real message is the earliest real message -/
+theorem firstReal_le (prev : Nat) (ps : List Poll) (hm : Mono prev ps) (p : Poll) (h : firstReal ps = some p) :
+    ∀ q ∈ ps, q.kind.real = true → p.t ≤ q.t := by
+  induction ps generalizing prev with
+  | nil => simp [firstReal] at h
+  | cons r rs ih =>
+    simp only [firstReal] at h
+    intro q hq hqr
+    by_cases hr : r.kind.real = true
+    · simp [hr] at h; subst h
+      rcases List.mem_cons.1 hq with e | e
+      · subst e; exact Nat.le_refl _
+      · exact mono_ge r.t rs hm.2 q e
+    · simp [hr] at h
+      rcases List.mem_cons.1 hq with e | e
+      · subst e; exact absurd hqr hr
+      · exact ih r.t hm.2 h q e hqr
+
+/-- after the first KEEPALIVE (at `a`) the established-phase invariant holds with the silence counted from `a` -/
+theorem inv_afterOpenConfirm (l p tC a tS : Nat) (hH : min l p ≠ 0) :
+    Inv (min l p) (Sess.afterOpenConfirm l p tC a tS) a tS := by
+  have hr : Kind.keepalive.real = true := by decide
+  constructor <;>
+    simp [Sess.afterOpenConfirm, Recv.establish, Send.establish, Recv.init, Send.init, Recv.checkKaTimer,
+      negotiatedHold, hH, hr, secs, keepaliveOf_eq, holdNotify_eq]
+
 /-! ### hold time zero -/
 
 structure Inv0 (s : Sess) : Prop where
